@@ -23,7 +23,7 @@ COMPONENTS_STUB = ["RandomSource.randint/random_float (SimRandom, stream R)", "s
 ASSUMPTIONS = ["library error types are GeneticEngineError, SynthesisException, InvalidGrammarException",
                "typing is judged against the generated specification, exact base types (True is not an int)"]
 
-FEAT = features(tuple=2, union=2, list=2, annlist=3, flaky=1, dependent=1, interval=1, concrete_start=1)
+FEAT = features(tuple=2, union=2, list=2, annlist=3, flaky=1, dependent=1, interval=1, concrete_start=1, nested_generic=1)
 
 
 def budget(tier):
@@ -117,7 +117,16 @@ def run(ctx):
             return
         n_ops = 1 + H.draw(12 if ctx.tier == "quick" else 40)
         ops = []
-        for _ in range(n_ops):
+        redeclare_at = H.draw(n_ops) if H.draw(4) == 3 else -1
+        for step_i in range(n_ops):
+            if step_i == redeclare_at:
+                rr = w.op_redeclare()
+                ops.append(("redeclare", "ok" if rr.ok else rr.error))
+                if rr.foreign:
+                    ctx.violate(f"C01/error-type/redeclare/{rr.foreign}", f"re-declaring a field type and extracting again raised {rr.tb}")
+                if not rr.ok and w.rep is None:
+                    break
+                ctx.sample = {**w.describe(), "ops": ops}
             res = w.random_op()
             ops.append((res.kind,) + tuple(res.args) + (("ok",) if res.ok else (res.error,)))
             if res.foreign:
